@@ -1,6 +1,7 @@
 import shutil
 import sys
 
+from conductor.config import VERSION_INDEX_NAME
 from conductor.context import Context
 from conductor.utils.user_code import cli_command
 
@@ -38,4 +39,11 @@ def main(args):
             print("Aborting!")
             sys.exit(1)
 
+    # Remove the version index first. If the clean operation is interrupted
+    # partway, the index must not be left referring to task outputs that have
+    # already been deleted.
+    try:
+        (ctx.output_path / VERSION_INDEX_NAME).unlink()
+    except FileNotFoundError:
+        pass
     shutil.rmtree(ctx.output_path, ignore_errors=True)
